@@ -153,7 +153,8 @@ def run(repo, run, tier):
               "integer literals must be taken from the parsed value expression", am.loc(value_loop))
     # C++ radix: a literal with a leading 0 is octal
     octal = [c for c in ints if len(c.args) == 2 and isinstance(c.args[1], ast.Constant) and c.args[1].value == 8]
-    guarded = any("[0] == '0'" in am.seg(t) for c in octal for t, pol in pyflow.dominating_tests(c, stop=value_loop) if pol)
+    guarded = any("[0] == '0'" in am.seg(t) for c in octal for t, pol in pyflow.dominating_tests(c, stop=value_loop) if pol) and \
+        any(pat.has(value_loop, "MV_D = MV_L.lstrip('+-')") for _ in [0])
     run.check(R1, "ast.EnumNode.__init__:octal-literal", bool(octal) and guarded,
               "an enumerator literal with a leading 0 is octal in C++ (`A = 010` is 8): evaluating it with int(text) "
               "gives 10 in the C header and the Fortran parameter", am.loc(value_loop))
@@ -319,6 +320,24 @@ def run(repo, run, tier):
     run.check(R5, "declast.ExprParser.expression:as-written", ok,
               "BinaryOp(lhs, op, rhs) must be built from the operator token and the parsed right operand exactly as "
               "written (each assigned once per iteration): rewriting `a + -b` or `a - -b` changes values", dm.loc(ex))
+    # literals reach the evaluator exactly as written: the tokenizer never rewrites token text (a leading 0 is
+    # what makes a literal octal)
+    tk = dm.func("tokenize")
+    vals = [a for a in ast.walk(tk) if isinstance(a, ast.Assign) and pyflow.is_name(a.targets[0], "val")]
+    run.check(R5, "declast.tokenize:verbatim", len(vals) == 1 and dm.seg(vals[0].value) == "mo.group(typ)",
+              "the token value is reassigned (%s): integer literals must be handed on verbatim, `010` rewritten to `10` "
+              "changes the enumerator from 8 to 10" % [dm.seg(a) for a in vals], dm.loc(tk))
+    # enumerator names get the scope prefix of the namespace they are in (the namespace's own flatten options decide)
+    from checks import c14
+    from sa.report import import_rules
+    import_rules(run, R5, c14, repo, {"C14.R8"}, only=lambda c: c.startswith("ast.NamespaceNode"))
+    # Fortran has no C-style octal literals: when an expression is rewritten for Fortran they are printed in decimal
+    pvc = [fn for q_, fn in tm.functions().items() if q_ == "PrintNodeIdentifier.visit_Constant"]
+    okf = bool(pvc) and pat.has(pvc[0], "int(MV_V, 8)") and any("F_" in tm.seg(t) for n_ in ast.walk(pvc[0]) if isinstance(n_, ast.If)
+                                                                for t in [n_.test])
+    run.check(R5, "todict.PrintNodeIdentifier.visit_Constant:octal-for-Fortran", okf,
+              "an octal literal inside a value expression (`A + 010`) must be printed in decimal for Fortran, which reads the "
+              "digits 010 as ten", tm.loc(pvc[0]) if pvc else "shroud/todict.py")
     # printers are pure functions of the node and the visitor's table: the subclass that rewrites identifiers shares
     # them, so nothing may be remembered on the node or in the visitor between calls
     for q in ("PrintNode.visit_BinaryOp", "PrintNode.visit_UnaryOp", "PrintNode.visit_ParenExpr", "PrintNode.visit_Identifier",
